@@ -362,6 +362,13 @@ def monitor(scn, obs):
                 had = any(t[0] == user and t[1] == ob['rp'] for t in before)
                 if not had:
                     found.append(('no-failure-reply', f'request of {user} for {ob["rp"]!r} refused without a "File not shared." reply', {'event': e, 'reply': ob['reply']}))
+            # no upload is created, RE-QUEUED or served for a user who is not entitled now
+            live = ('QUEUED', 'INITIALIZING', 'UPLOADING')
+            for tb, ta in zip(before, ob['transfers']):
+                if (ta[0], ta[1]) == (user, ob['rp']) and ta[2] in live and tb[2] not in live and not permitted:
+                    key = K_F05 if h is not None and h[3] and not blocked(user, 'UPLOADS') else 'upload-requeued-for-unentitled'
+                    found.append((key, f'the {tb[2]} upload of {ob["rp"]!r} was put back to {ta[2]} for {user}, who is not entitled to the file any more',
+                                  {'event': e, 'holder': h, 'before': list(tb), 'after': list(ta)}))
             if permitted and not created and not any(t[0] == user and t[1] == ob['rp'] for t in before):
                 key = K_F05 if h[3] else 'upload-refused-for-entitled'
                 found.append((key, f'{user} is entitled to {ob["rp"]!r} but the upload was refused', {'event': e, 'holder': h, 'reply': ob['reply']}))
@@ -452,7 +459,37 @@ def gen_scenario(rng):
     events.append(['cfg', gen_cfg(rng, vocab)])
     fl = [c for c, _ in files]
     deep = [c for c in fl if len(c) >= 3]
-    if deep and rng.random() < 0.35:
+    ntr = 0
+    tusers = set()
+    if rng.random() < 0.3:
+        # directed: a finished (or not-on-request aborted) upload, then the user loses access, then asks again for the same path
+        f = rng.choice(fl)
+        d = next((x for x in sorted(shared, key=len, reverse=True) if f[:len(x)] == x and len(f) > len(x)), None)
+        if d is not None:
+            u = rng.choice(USERS)
+            others = [x for x in USERS if x != u]
+            base = {'friends': sorted(rng.sample(others, rng.randrange(0, 3)) + [u]), 'blocked': {}, 'phrases': [], 'max': 100}
+            events.append(['cfg', base])
+            events.append(['share', ['update', d, rng.choice(['everyone', 'friends', 'users']), [u]]])
+            events.append(['queue', u, ['item', f, 'exact']])
+            st = rng.choice(['COMPLETE', 'FAILED', 'COMPLETE', 'FAILED', 'ABORTED', 'PAUSED'])
+            events.append(['set', 0, st, rng.choice(['Blocked', 'File not shared']) if st == 'ABORTED' else None])
+            if rng.random() < 0.5:
+                events.append(['share', ['update', d, rng.choice(['friends', 'users']), rng.sample(others, rng.randrange(0, 2))]])
+                events.append(['cfg', dict(base, friends=[x for x in base['friends'] if x != u])])
+            else:
+                events.append(['cfg', dict(base, friends=[x for x in base['friends'] if x != u])])
+                events.append(['share', ['update', d, rng.choice(['friends', 'users']), rng.sample(others, rng.randrange(0, 2))]])
+            events.append(['cycle'])
+            for _ in range(rng.randrange(1, 3)):
+                events.append([rng.choice(['queue', 'queue', 'request']), u, ['item', f, 'exact']])
+            if rng.random() < 0.5:
+                events.append(['cfg', base])
+                events.append(['share', ['update', d, 'everyone', []]])
+                events.append(['queue', u, ['item', f, 'exact']])
+            ntr = 1
+            tusers.add(u)
+    if deep and not ntr and rng.random() < 0.35:
         # directed: a nested directory with other rules is added (or the parent removed) without a rescan
         f = rng.choice(deep)
         par, ch = f[:1], f[:-1]
@@ -466,8 +503,6 @@ def gen_scenario(rng):
             events.append(['share', ['remove', rng.choice([par, ch])]])
             shared = [d for d in shared if ['share', ['remove', d]] not in events]
             events.append(['cycle'])
-    ntr = 0
-    tusers = set()
     for _ in range(rng.randrange(6, 16)):
         r = rng.random()
         u = rng.choice(USERS)
